@@ -35,12 +35,18 @@ func runCase(run *lib.Run, c int64, base string) {
 		ns = append(ns, 7, 7)
 	}
 	n := ns[rng.Intn(len(ns))]
+	split := c%8 == 5 // scripted prefix: two honest validators locked on different blocks
+	if split {
+		n = 4
+	}
 	p := make([]int64, n)
 	for i := range p {
-		switch c % 3 {
-		case 0:
+		switch {
+		case split:
+			p[i] = []int64{1, 10, 33}[(c/8)%3]
+		case c%3 == 0:
 			p[i] = 1
-		case 1:
+		case c%3 == 1:
 			p[i] = int64(1 + rng.Intn(6))
 		default:
 			p[i] = int64(30 + rng.Intn(5))
@@ -56,7 +62,10 @@ func runCase(run *lib.Run, c int64, base string) {
 	}
 	var byz []int
 	var bp int64
-	if rng.Float64() < 0.7 {
+	if split {
+		z := rng.Intn(n)
+		byz, real[z] = []int{z}, false
+	} else if rng.Float64() < 0.7 {
 		for _, i := range rng.Perm(n) {
 			if (bp+p[i])*3 < total && rng.Float64() < 0.8 {
 				bp += p[i]
@@ -76,6 +85,9 @@ func runCase(run *lib.Run, c int64, base string) {
 	}
 	net.KeepTrace = true
 	profile := []string{"balanced", "timeouts", "crashy", "byzheavy", "lossy", "partition", "tmpl-eqv", "tmpl-amnesia-crash", "silent"}[rng.Intn(9)]
+	if split {
+		profile = "tmpl-split-locks"
+	}
 	defer func() {
 		if r := recover(); r != nil {
 			run.Count("runs_aborted_by_panic", 1)
@@ -108,6 +120,12 @@ func runCase(run *lib.Run, c int64, base string) {
 		if len(byz) > 0 {
 			adv.AttackLockAmnesia(true)
 		}
+	case "tmpl-split-locks":
+		adv.PByz = 0
+		run.Count("split_lock_cases", 1)
+		if adv.AttackSplitLocks() {
+			run.Count("split_locks_staged", 1)
+		}
 	case "silent": // nothing is delivered for a while: only timeouts fire
 		adv.PDeliver, adv.PTimeout, adv.PInternal = 0.02, 0.5, 0.4
 	}
@@ -115,6 +133,9 @@ func runCase(run *lib.Run, c int64, base string) {
 		adv.PByz = 0
 	}
 	prefix := rng.Intn(lib.Pick(1500, 4000))
+	if split {
+		prefix = 0 // the scripted prefix is the adversarial part; the byzantine validator is silent from here on
+	}
 	for s := 0; s < prefix; s++ {
 		if !adv.Step() {
 			break
@@ -169,12 +190,30 @@ func runCase(run *lib.Run, c int64, base string) {
 				continue
 			}
 			rs := nd.CS.VerifRoundState()
-			st = append(st, fmt.Sprintf("node %d: power %d store %d working on %d/%d/%v locked=%v proposal=%v pendingTimeouts=%d internalQueue=%d undelivered=%d restarts=%d",
-				nd.Idx, p[nd.Idx], nd.Store.Height(), rs.Height, rs.Round, rs.Step, rs.LockedBlock != nil, rs.Proposal != nil, len(nd.Timeouts), nd.CS.VerifInternalLen(), len(net.Undelivered(nd.Idx)), nd.Restarts))
+			detail := fmt.Sprintf("commitRound=%d", rs.CommitRound)
+			if rs.ProposalBlockParts != nil {
+				detail += fmt.Sprintf(" parts=%X:%v", rs.ProposalBlockParts.Header().Hash, rs.ProposalBlockParts.BitArray())
+			}
+			if rs.Proposal != nil {
+				detail += fmt.Sprintf(" proposal=%d/%d:%X", rs.Proposal.Height, rs.Proposal.Round, rs.Proposal.BlockPartsHeader.Hash)
+			}
+			if rs.Votes != nil && rs.CommitRound >= 0 {
+				if pc := rs.Votes.Precommits(rs.CommitRound); pc != nil {
+					id, ok := pc.TwoThirdsMajority()
+					detail += fmt.Sprintf(" commitMaj23=%v:%X/%X", ok, id.Hash, id.PartsHeader.Hash)
+				}
+			}
+			st = append(st, fmt.Sprintf("node %d: power %d store %d working on %d/%d/%v locked=%v proposal=%v pendingTimeouts=%d internalQueue=%d undelivered=%d restarts=%d %s",
+				nd.Idx, p[nd.Idx], nd.Store.Height(), rs.Height, rs.Round, rs.Step, rs.LockedBlock != nil, rs.Proposal != nil, len(nd.Timeouts), nd.CS.VerifInternalLen(), len(net.Undelivered(nd.Idx)), nd.Restarts, detail))
 		}
 		tr := net.Trace
 		if len(tr) > 400 {
 			tr = tr[len(tr)-400:]
+		}
+		if os.Getenv("VERIF_CASE") != "" {
+			for _, l := range net.Trace {
+				fmt.Println("TRACE", l)
+			}
 		}
 		key := "no-progress-in-fair-suffix"
 		run.ChildViolation(key, fmt.Sprintf("case %d (%s, N=%d, byz=%v): after a prefix of %d steps the fair suffix did not bring every honest validator to height %d within %d steps", c, profile, n, byz, prefix, target+1, B),
@@ -182,7 +221,7 @@ func runCase(run *lib.Run, c int64, base string) {
 	}
 	run.Count("steps", int64(net.Steps))
 	run.Distinct("schedules", lib.Hash12(net.Trace))
-	if prefix > 50 {
+	if prefix > 50 || split {
 		run.Nontrivial(lib.Hash12(net.Trace))
 	}
 	if c < 2 {
@@ -198,7 +237,11 @@ func worker(args []string) {
 	base := lib.Scratch(prop)
 	defer os.RemoveAll(base)
 	total := int64(lib.Pick(320, 16000))
+	only, _ := strconv.ParseInt(os.Getenv("VERIF_CASE"), 10, 64) // replay of one case
 	for c := int64(i); c < total; c += int64(wn) {
+		if os.Getenv("VERIF_CASE") != "" && c != only {
+			continue
+		}
 		runCase(run, c, base)
 	}
 	run.MarkComplete()
@@ -226,5 +269,6 @@ func main() {
 	run.Require("progress_within_bound", 200)
 	run.Require("suffixes_starting_in_round>0", 50)
 	run.Require("cases_with_crashes", 20)
+	run.Require("split_locks_staged", 20)
 	os.Exit(run.Finish())
 }
